@@ -28,22 +28,26 @@ abbrev PMem := Word → Nat → Word
 def PMem.set (m : PMem) (f : Word) (i : Nat) (v : Word) : PMem :=
   fun f' i' => if f' = f ∧ i' = i then v else m f' i'
 
-/-- Mapper state: memory, remaining allocator answers, ghost log. -/
+/-- Mapper state: memory, remaining allocator answers, ghost log. The log is kept newest-first
+(`log.head?` is the latest event) so that appending an event is O(1) in the executable model;
+`St.events` gives it in chronological order. -/
 structure St where
   mem : PMem
   allocs : List (Option Word)
   log : List Ev
 
 namespace St
-def rd (s : St) (f : Word) (i : Nat) : Word × St := (s.mem f i, { s with log := s.log ++ [.rd f i] })
+/-- The ghost log in chronological order. -/
+def events (s : St) : List Ev := s.log.reverse
+def rd (s : St) (f : Word) (i : Nat) : Word × St := (s.mem f i, { s with log := .rd f i :: s.log })
 def wr (s : St) (f : Word) (i : Nat) (v : Word) : St :=
-  { s with mem := s.mem.set f i v, log := s.log ++ [.wr f i v] }
+  { s with mem := s.mem.set f i v, log := .wr f i v :: s.log }
 /-- `allocator.allocate_frame()`: the next answer (an exhausted list answers `None`). -/
 def alloc (s : St) : Option Word × St :=
   match s.allocs with
-  | [] => (none, { s with log := s.log ++ [.alloc none] })
-  | a :: rest => (a, { s with allocs := rest, log := s.log ++ [.alloc a] })
-def dealloc (s : St) (f : Word) : St := { s with log := s.log ++ [.dealloc f] }
+  | [] => (none, { s with log := .alloc none :: s.log })
+  | a :: rest => (a, { s with allocs := rest, log := .alloc a :: s.log })
+def dealloc (s : St) (f : Word) : St := { s with log := .dealloc f :: s.log }
 
 /-- `PageTable::zero()`: `set_unused` on all 512 entries, in index order. -/
 def zeroTable (s : St) (f : Word) : St :=
